@@ -221,6 +221,22 @@ let handle (fields : string list) : string =
     (match assign rl matches (nat_of_int (int_of_string natoms)) with
      | FOk l -> "OK " ^ String.concat "," (List.map (fun r -> string_of_int (int_of_nat r.r_id)) l)
      | FPartial d -> "PARTIAL " ^ String.concat "," (List.map (function None -> "-" | Some r -> string_of_int (int_of_nat r.r_id)) d))
+  | [ "plumb"; fam; args ] ->
+    let f = (match fam with "flory_schulz" -> FFlorySchulz | "gauss" -> FGauss | "uniform" -> FUniform | "schulz_zimm" -> FSchulzZimm
+                          | "log_normal" -> FLogNormal | "poisson" -> FPoisson | _ -> failwith "family") in
+    (match plumb f (List.map q_of_string (split_nonempty ',' args)) with
+     | LNorm (a, b) -> "norm " ^ string_of_q a ^ " " ^ string_of_q b
+     | LUnif (a, b) -> "uniform " ^ string_of_q a ^ " " ^ string_of_q b
+     | LPoisson a -> "poisson " ^ string_of_q a
+     | LFlorySchulz a -> "flory_schulz " ^ string_of_q a
+     | LSchulzZimm (a, b) -> "schulz_zimm " ^ string_of_q a ^ " " ^ string_of_q b
+     | LLogNormal (a, b) -> "log_normal " ^ string_of_q a ^ " " ^ string_of_q b
+     | LBad -> "bad")
+  | [ "stopidx"; ms; t ] ->
+    (match stop_index (List.map q_of_string (split_nonempty ',' ms)) (q_of_string t) with None -> "none" | Some n -> string_of_int (int_of_nat n))
+  | [ "fs"; a; k ] ->
+    let n = nat_of_int (int_of_string k) in
+    string_of_q (fs_pmf (q_of_string a) n) ^ " " ^ string_of_q (fs_cdf (q_of_string a) n)
   | [ "float"; s ] ->
     (match py_float (explode (unhex s)) with None -> "ERR" | Some x -> string_of_num x ^ " " ^ implode (fprint x))
   | [ "repr"; s ] -> py_repr (float_of_string s)
